@@ -5,7 +5,7 @@ import VrpProofs.C06CapVec
 
 `C06.evalJob_any_complete_time'` is the completeness of the leg × place × window scan for jobs without demand.
 This file adds the capacity half: the vector test `hasDemandViolation` on the cached maxima refuses nothing the
-step-by-step load profile admits (`cap_complete_vec`, the lift of `C06Cap.cap_complete1`), the only "fail and stop"
+step-by-step load profile accepts (`cap_complete_vec`, the lift of `C06Cap.cap_complete1`), the only "fail and stop"
 verdict of the capacity part (static delivery against `max_past`) cannot fire at a leg before an admissible one
 (`static_clause_mono`), the route-level pre-check lets the job through (`route_precheck_vec`, `route_precheck_pure`),
 and therefore `evalJob_any_complete`: if the simulation finds SOME feasible (leg, place, window), `Any` succeeds.
@@ -585,5 +585,276 @@ theorem evalRoute_of_feasible (c : Ctx) (j : JobS) (d : Dem) (hdem : j.dem = som
       simpa using hpure
     simp only [Bool.or_eq_true, Option.isNone_iff_eq_none]
     exact route_precheck_pure n c.cap c.allDems i d hcap hwA hwd hiA hA hB hV hpure'
+
+/-! ## step 6 — the scan: "fail and stop" only matters BEFORE the feasible leg -/
+
+/-- scanning the consecutive legs `s, s+1, …, s+len-1`: if no leg up to `i` answers "fail" and leg `i` accepts some place
+    and window, a best placement exists at the end (legs after `i` may stop the scan: the best found so far is kept) -/
+theorem scanLegs_finds_upto (c : Ctx) (j : JobS) (len s : Nat) (sc : Scan) (i : Nat)
+    (hs : s ≤ i) (hlt : i < s + len)
+    (hnf : ∀ k, s ≤ k → k ≤ i → NoFailAt c j k)
+    (p : JPlace) (hp : p ∈ j.places) (w : Int × Int) (hw : w ∈ p.tws)
+    (hok : evalActivity c i { loc := p.loc, s := w.1, e := w.2, dur := p.dur } j.dem = .ok) :
+    (scanLegs c j (List.range' s len) sc).best.isSome = true := by
+  induction len generalizing s sc with
+  | zero => omega
+  | succ len ih =>
+    rw [List.range'_succ]
+    simp only [scanLegs]
+    have hns := scanPlaces_no_stop c j s j.places 0 sc (hnf s (by omega) hs)
+    cases hsp : scanPlaces c j s j.places 0 sc with
+    | mk sc' stop =>
+      rw [hsp] at hns
+      simp only at hns
+      subst hns
+      simp only
+      by_cases hsi : s = i
+      · subst hsi
+        have := scanPlaces_finds c j s j.places 0 sc (hnf s (by omega) (by omega)) p hp w hw hok
+        rw [hsp] at this
+        exact scanLegs_best_mono c j _ sc' this
+      · exact ih (s + 1) sc' (by omega) (by omega) (fun k h1 h2 => hnf k (by omega) h2)
+
+/-! ## steps 3 and 4 at the level of the evaluator -/
+
+/-- **step 4 (capacity)**: at a leg where the simulated load profile with the job inserted stays within capacity the
+    evaluator's capacity test (on the caches of the tour INCLUDING the arrival activity) reports no violation -/
+theorem capViolationAt_none_of_feasible (c : Ctx) (d : Dem) (n : Nat)
+    (hcap : c.cap.length = n) (hwf : ∀ x ∈ c.dems, WF n x) (hwd : WF n d)
+    (hbasecap : capOk c.cap c.dems = true)
+    (hnonneg : ∀ l ∈ loadProfile c.zero c.dems, ∀ v ∈ l, 0 ≤ v)
+    (hshape : ∀ k, k < n → pr k d.sp = 0 ∨ pr k d.dd ≤ pr k d.dp)
+    (i : Nat) (hi : i ≤ c.acts.length)
+    (hfeas_cap : capOk c.cap (insertAt c.dems i d) = true) :
+    capViolationAt c i (some d) true = none := by
+  have hlenD : c.dems.length = c.acts.length := by simp [Ctx.dems, Ctx.acts]
+  have hlenT : c.acts.length = c.tour.length := by simp [Ctx.acts]
+  obtain ⟨hA, hB, hV⟩ := allDems_components c d n hcap hwf hwd hbasecap hnonneg hshape i (by omega) hfeas_cap
+  have hiA : i ≤ c.allDems.length := by rw [allDems_length]; omega
+  rw [capViolationAt_some]
+  exact hdvAt_none n c.cap c.allDems i d true hcap (wf_allDems c n hcap hwf) hwd hiA hA hB hV
+
+/-- **step 4**: the evaluator accepts the feasible (leg, place, window) -/
+theorem evalActivity_ok_of_feasible (c : Ctx) (d : Dem) (n : Nat)
+    (hcap : c.cap.length = n) (hwf : ∀ x ∈ c.dems, WF n x) (hwd : WF n d)
+    (ht : ∀ a b, 0 ≤ c.m.t a b) (hd : ∀ a ∈ c.acts, 0 ≤ a.dur)
+    (hdep : 0 ≤ c.veh.dep) (hearly : c.veh.earliest ≤ c.veh.dep)
+    (hbase : tourFeas c.m.t c.veh c.acts = true) (hbasecap : capOk c.cap c.dems = true)
+    (hnonneg : ∀ l ∈ loadProfile c.zero c.dems, ∀ v ∈ l, 0 ≤ v)
+    (hshape : ∀ k, k < n → pr k d.sp = 0 ∨ pr k d.dd ≤ pr k d.dp)
+    (i : Nat) (hi : i ≤ c.acts.length) (x : Act) (hxd : 0 ≤ x.dur) (hxw : x.s ≤ x.e)
+    (hfeas_time : tourFeas c.m.t c.veh (insertAt c.acts i x) = true)
+    (hfeas_cap : capOk c.cap (insertAt c.dems i d) = true) :
+    evalActivity c i x (some d) = .ok :=
+  evalActivity_ok c i x _ (evalTime_complete c.m.t ht c.veh c.acts i x hi hd hxd hxw hdep hearly hbase hfeas_time)
+    (capViolationAt_none_of_feasible c d n hcap hwf hwd hbasecap hnonneg hshape i hi hfeas_cap)
+
+/-- **step 3**: if the capacity test accepts the demand at leg `i`, then at no leg `k ≤ i` the evaluator answers "fail and
+    stop" - whatever the place and window (the demand belongs to the job, not to the place) -/
+theorem evalActivity_never_stops_before (c : Ctx) (d : Dem) (n : Nat)
+    (hcap : c.cap.length = n) (hwf : ∀ x ∈ c.dems, WF n x) (hwd : WF n d)
+    (ht : ∀ a b, 0 ≤ c.m.t a b) (hd : ∀ a ∈ c.acts, 0 ≤ a.dur)
+    (hdep : 0 ≤ c.veh.dep) (hearly : c.veh.earliest ≤ c.veh.dep)
+    (hbase : tourFeas c.m.t c.veh c.acts = true)
+    (i : Nat) (hi : i ≤ c.acts.length) (hnone : capViolationAt c i (some d) true = none)
+    (k : Nat) (hk : k ≤ i) (x : Act) :
+    evalActivity c k x (some d) ≠ .fail := by
+  have hlenT : c.acts.length = c.tour.length := by simp [Ctx.acts]
+  have hiA : i ≤ c.allDems.length := by rw [allDems_length]; omega
+  apply evalActivity_ne_fail
+  · exact evalTime_never_stops c.m.t ht c.veh c.acts k x (by omega) hd hdep hearly hbase
+  · rw [capViolationAt_some] at hnone ⊢
+    exact static_clause_mono n c.cap c.allDems k i d hcap (wf_allDems c n hcap hwf) hwd hk hiA hnone
+
+/-! ## the theorem -/
+
+/-- **C06 completeness of `Any` for jobs with demand** (time windows and capacity together): on a feasible tour with
+    non-negative travel times, service durations and loads, for a demand that in every dimension has no static pickup or
+    a dynamic delivery not above its dynamic pickup (every shape the readers produce): if the step-by-step simulation
+    finds the tour with the job inserted at SOME leg, place and window feasible - in time AND in load - then
+    `eval_job_insertion_in_route(Any)` (model) succeeds. Every hypothesis is about the inputs (the tour, the vehicle, the
+    job and the specification functions `tourFeas`, `capOk`, `loadProfile`), none about internal values of the model. -/
+theorem evalJob_any_complete (c : Ctx) (j : JobS) (d : Dem) (hdem : j.dem = some d) (n : Nat)
+    (hcap : c.cap.length = n) (hwf : ∀ x ∈ c.dems, WF n x) (hwd : WF n d)
+    (ht : ∀ a b, 0 ≤ c.m.t a b) (hd : ∀ a ∈ c.acts, 0 ≤ a.dur)
+    (hdep : 0 ≤ c.veh.dep) (hearly : c.veh.earliest ≤ c.veh.dep)
+    (hbase : tourFeas c.m.t c.veh c.acts = true) (hbasecap : capOk c.cap c.dems = true)
+    (hnonneg : ∀ l ∈ loadProfile c.zero c.dems, ∀ v ∈ l, 0 ≤ v)
+    (hshape : ∀ k, k < n → pr k d.sp = 0 ∨ pr k d.dd ≤ pr k d.dp)
+    (i : Nat) (hi : i ≤ c.acts.length) (p : JPlace) (hp : p ∈ j.places) (w : Int × Int) (hw : w ∈ p.tws)
+    (hpd : 0 ≤ p.dur) (hww : w.1 ≤ w.2)
+    (hfeas_time : tourFeas c.m.t c.veh (insertAt c.acts i { loc := p.loc, s := w.1, e := w.2, dur := p.dur }) = true)
+    (hfeas_cap : capOk c.cap (insertAt c.dems i d) = true) :
+    (evalJob c j .any).isSome = true := by
+  have hlenT : c.acts.length = c.tour.length := by simp [Ctx.acts]
+  have hlegs : legCount c = c.tour.length + 1 := by unfold legCount; split <;> rfl
+  have htimeOk := evalTime_complete c.m.t ht c.veh c.acts i _ hi hd hpd hww hdep hearly hbase hfeas_time
+  have hroute := evalRoute_of_feasible c j d hdem n hcap hwf hwd ht hd hearly hbasecap hnonneg hshape i hi p hp w hw
+    htimeOk hfeas_cap
+  have hnone := capViolationAt_none_of_feasible c d n hcap hwf hwd hbasecap hnonneg hshape i hi hfeas_cap
+  unfold evalJob
+  simp only [hroute, Bool.not_true, Bool.false_eq_true, if_false]
+  rw [List.range_eq_range', hlegs]
+  apply scanLegs_finds_upto c j (c.tour.length + 1) 0 {} i (by omega) (by omega) ?_ p hp w hw ?_
+  · -- "fail and stop" is unreachable at every leg up to the feasible one
+    intro k _ hk p' _ w' _
+    rw [hdem]
+    exact evalActivity_never_stops_before c d n hcap hwf hwd ht hd hdep hearly hbase i hi hnone k hk _
+  · rw [hdem]
+    exact evalActivity_ok c i _ _ htimeOk hnone
+
+/-- **C06 completeness of `Any` against the brute-force specification**, jobs with or without demand: whenever
+    `existsFeasible` (insert at every leg × place × window, simulate schedule and load profile step by step) finds a feasible
+    tour, the evaluator model returns a placement. -/
+theorem evalJob_any_complete_spec (c : Ctx) (j : JobS) (n : Nat)
+    (hcap : c.cap.length = n) (hwf : ∀ x ∈ c.dems, WF n x)
+    (hjd : ∀ d, j.dem = some d → WF n d ∧ ∀ k, k < n → pr k d.sp = 0 ∨ pr k d.dd ≤ pr k d.dp)
+    (ht : ∀ a b, 0 ≤ c.m.t a b) (hd : ∀ a ∈ c.acts, 0 ≤ a.dur)
+    (hdep : 0 ≤ c.veh.dep) (hearly : c.veh.earliest ≤ c.veh.dep)
+    (hbase : baseFeasible c = true)
+    (hnonneg : ∀ l ∈ loadProfile c.zero c.dems, ∀ v ∈ l, 0 ≤ v)
+    (hplaces : ∀ p ∈ j.places, 0 ≤ p.dur ∧ ∀ w ∈ p.tws, w.1 ≤ w.2)
+    (hex : existsFeasible c j = true) :
+    (evalJob c j .any).isSome = true := by
+  unfold baseFeasible at hbase
+  rw [Bool.and_eq_true] at hbase
+  obtain ⟨hbt, hbc⟩ := hbase
+  have hlegs : legCount c = c.tour.length + 1 := by unfold legCount; split <;> rfl
+  have hlenT : c.acts.length = c.tour.length := by simp [Ctx.acts]
+  unfold existsFeasible at hex
+  obtain ⟨i, hi, h⟩ := List.any_eq_true.mp hex
+  have hi' : i ≤ c.acts.length := by
+    have := List.mem_range.mp hi
+    omega
+  obtain ⟨pi, _, h⟩ := List.any_eq_true.mp h
+  split at h
+  · cases h
+  · rename_i p hpi
+    obtain ⟨w, hw, h⟩ := List.any_eq_true.mp h
+    have hp : p ∈ j.places := List.mem_of_getElem? hpi
+    unfold insertedFeasible at h
+    rw [hpi] at h
+    simp only [Bool.and_eq_true] at h
+    obtain ⟨hft, hfc⟩ := h
+    obtain ⟨hpd, hws⟩ := hplaces p hp
+    cases hdem : j.dem with
+    | none =>
+      exact evalJob_any_complete_time' c j hdem ht hd hdep hearly hbt i hi' p hp w hw hpd (hws w hw) hft
+    | some d =>
+      rw [hdem] at hfc
+      obtain ⟨hwd, hshape⟩ := hjd d hdem
+      exact evalJob_any_complete c j d hdem n hcap hwf hwd ht hd hdep hearly hbt hbc hnonneg hshape i hi' p hp w hw
+        hpd (hws w hw) hft hfc
+
+/-! ## step 7 — non-vacuity: two capacity dimensions, a demand with static delivery and dynamic pickup
+
+Tour (closed, shift end 100, capacity `[10, 5]`): A picks up `[8, 1]` (dynamic), B delivers it: loads `[0,0] [8,1] [0,0]`.
+Place of the job: location 1 with the windows `(0,3)` (unreachable: refused by time) and `(0,90)`. -/
+
+def exM : Mat := { n := 3, dur := [0, 5, 5, 5, 0, 5, 5, 5, 0], dist := [0, 5, 5, 5, 0, 5, 5, 5, 0] }
+def exC : Ctx :=
+  { m := exM, veh := { startLoc := 0, earliest := 0, dep := 0, endAt := some (0, 100) }, cap := [10, 5],
+    costs := ⟨0, 1, 1⟩, obj := .distance,
+    tour := [⟨{ loc := 1, s := 0, e := 50, dur := 2 }, some ⟨[0, 0], [8, 1], [0, 0], [0, 0]⟩⟩,
+             ⟨{ loc := 2, s := 0, e := 60, dur := 1 }, some ⟨[0, 0], [0, 0], [0, 0], [8, 1]⟩⟩] }
+def exP : JPlace := { loc := 1, dur := 1, tws := [(0, 3), (0, 90)] }
+/-- static delivery `[2,0]` + dynamic pickup `[3,2]`: capacity refuses legs 0 and 1 ("skip"), accepts leg 2 -/
+def exD1 : Dem := ⟨[0, 0], [3, 2], [2, 0], [0, 0]⟩
+def exJ1 : JobS := { places := [exP], dem := some exD1 }
+/-- static delivery `[3,0]` + dynamic pickup `[3,2]`: passes the route-level pre-check, but fits nowhere -/
+def exD2 : Dem := ⟨[0, 0], [3, 2], [3, 0], [0, 0]⟩
+def exJ2 : JobS := { places := [exP], dem := some exD2 }
+
+instance (n : Nat) (d : Dem) : Decidable (WF n d) := by unfold WF; infer_instance
+
+theorem exM_nonneg : ∀ a b, 0 ≤ exC.m.t a b := fun a b => pr_nonneg exM.dur (by decide) (a * exM.n + b)
+
+-- the capacity verdicts leg by leg: J1 is skipped twice and then accepted, J2 is skipped and then stopped
+example : (List.range 3).map (fun i => capViolationAt exC i exJ1.dem true) = [some false, some false, none] := by decide
+example : (List.range 3).map (fun i => capViolationAt exC i exJ2.dem true) = [some false, some true, some true] := by
+  decide
+
+/-- all hypotheses of `evalJob_any_complete` hold for `exC`, `exJ1` (leg 2, second window): the theorem is not vacuous -/
+example : (evalJob exC exJ1 .any).isSome = true :=
+  evalJob_any_complete exC exJ1 exD1 rfl 2 rfl (by decide) (by decide) exM_nonneg (by decide) (by decide) (by decide)
+    (by decide) (by decide) (by decide) (by decide) 2 (by decide) exP (by show exP ∈ [exP]; simp) (0, 90) (by decide) (by decide)
+    (by decide) (by decide) (by decide)
+-- … and the model indeed reports leg 2 with the second window
+example : (evalJob exC exJ1 .any).map (fun f => (f.index, f.place, f.tw)) = some (2, 0, (0, 90)) := by decide
+-- through the brute-force specification
+example : (evalJob exC exJ1 .any).isSome = true :=
+  evalJob_any_complete_spec exC exJ1 2 rfl (by decide)
+    (by intro d hd; cases hd; exact ⟨by decide, by decide⟩)
+    exM_nonneg (by decide) (by decide) (by decide) (by decide) (by decide) (by decide) (by decide)
+
+-- capacity refuses J2 everywhere although the route-level test lets it through and the time part alone would accept
+-- it: the conclusion fails exactly because `hfeas_cap` has no witness (the specification agrees)
+example : evalRoute exC exJ2 = true ∧ evalJob exC exJ2 .any = none ∧ existsFeasible exC exJ2 = false ∧
+    (evalJob exC { exJ2 with dem := none } .any).isSome = true := by decide
+
+/-! ### the two capacity hypotheses are needed (one dimension, capacity 10, one tour activity with demand `d`) -/
+
+def exC1 (d : Dem) : Ctx :=
+  { m := exM, veh := { startLoc := 0, earliest := 0, dep := 0, endAt := some (0, 100) }, cap := [10],
+    costs := ⟨0, 1, 1⟩, obj := .distance,
+    tour := [⟨{ loc := 1, s := 0, e := 50, dur := 2 }, some d⟩] }
+
+-- `hshape`: a static pickup of 3 together with a dynamic delivery of 3 after a static pickup of 8 keeps the load at 8
+-- (feasible for the simulation), the evaluator adds the static pickup to `max_future` and refuses everywhere
+example : baseFeasible (exC1 ⟨[8], [0], [0], [0]⟩) = true ∧
+    existsFeasible (exC1 ⟨[8], [0], [0], [0]⟩) { places := [exP], dem := some ⟨[3], [0], [0], [3]⟩ } = true ∧
+    evalJob (exC1 ⟨[8], [0], [0], [0]⟩) { places := [exP], dem := some ⟨[3], [0], [0], [3]⟩ } .any = none := by decide
+
+-- `hnonneg`: with a negative load at departure (-5) `max_past` is the initial zero of the fold, not a load of the
+-- tour: a static delivery of 12 fits the simulated profile (7 at departure) and is refused by the evaluator
+example : baseFeasible (exC1 ⟨[0], [0], [-5], [0]⟩) = true ∧
+    loadProfile (exC1 ⟨[0], [0], [-5], [0]⟩).zero (exC1 ⟨[0], [0], [-5], [0]⟩).dems = [[-5], [0]] ∧
+    existsFeasible (exC1 ⟨[0], [0], [-5], [0]⟩) { places := [exP], dem := some ⟨[0], [0], [12], [0]⟩ } = true ∧
+    evalJob (exC1 ⟨[0], [0], [-5], [0]⟩) { places := [exP], dem := some ⟨[0], [0], [12], [0]⟩ } .any = none := by decide
+
+/-! ## the decidable form of the hypotheses (evaluated by the driver on every generated case) -/
+
+theorem demWF_iff (n : Nat) (d : Dem) : demWF n d = true ↔ WF n d := by
+  unfold demWF WF
+  simp only [Bool.and_eq_true, beq_iff_eq]
+  constructor
+  · rintro ⟨⟨⟨h1, h2⟩, h3⟩, h4⟩; exact ⟨h1, h2, h3, h4⟩
+  · rintro ⟨h1, h2, h3, h4⟩; exact ⟨⟨⟨h1, h2⟩, h3⟩, h4⟩
+
+theorem demShape_spec (n : Nat) (d : Dem) (h : demShape n d = true) :
+    ∀ k, k < n → pr k d.sp = 0 ∨ pr k d.dd ≤ pr k d.dp := by
+  intro k hk
+  unfold demShape at h
+  have := List.all_eq_true.mp h k (List.mem_range.mpr hk)
+  simpa [pr] using this
+
+/-- **C06 completeness, decidable hypotheses**: on every case for which the Boolean `completeHyps` evaluates to true,
+    a feasible (leg, place, window) found by the brute-force simulation implies that `Any` succeeds -/
+theorem evalJob_any_complete_hyps (c : Ctx) (j : JobS) (hh : completeHyps c j = true)
+    (hex : existsFeasible c j = true) : (evalJob c j .any).isSome = true := by
+  unfold completeHyps at hh
+  simp only [Bool.and_eq_true, decide_eq_true_eq] at hh
+  obtain ⟨⟨⟨⟨⟨⟨⟨⟨hwf, hjd⟩, hdur⟩, hacts⟩, hdep⟩, hearly⟩, hbase⟩, hnn⟩, hpl⟩ := hh
+  refine evalJob_any_complete_spec c j c.cap.length rfl ?_ ?_ ?_ ?_ hdep hearly hbase ?_ ?_ hex
+  · intro x hx
+    exact (demWF_iff _ _).mp (List.all_eq_true.mp hwf x hx)
+  · intro d hd
+    rw [hd] at hjd
+    simp only [Bool.and_eq_true] at hjd
+    exact ⟨(demWF_iff _ _).mp hjd.1, demShape_spec _ _ hjd.2⟩
+  · intro a b
+    exact pr_nonneg c.m.dur (fun v hv => by simpa using List.all_eq_true.mp hdur v hv) (a * c.m.n + b)
+  · intro a ha
+    simpa using List.all_eq_true.mp hacts a ha
+  · intro l hl v hv
+    have := List.all_eq_true.mp (List.all_eq_true.mp hnn l hl) v hv
+    simpa using this
+  · intro p hp
+    have := List.all_eq_true.mp hpl p hp
+    simp only [Bool.and_eq_true, decide_eq_true_eq] at this
+    exact ⟨this.1, fun w hw => by simpa using List.all_eq_true.mp this.2 w hw⟩
+
+-- the hypotheses hold on the concrete case of step 7 (two dimensions, mixed demand)
+example : completeHyps exC exJ1 = true ∧ existsFeasible exC exJ1 = true := by decide
 
 end C06Complete
